@@ -4,17 +4,17 @@ CORE = ["Core/TopologyKernel.cc", "Core/ResourceManager.cc", "Core/Iterators.cc"
 
 PROPS = {}
 # entity counts of the base family (harness/mesh_common.h): base id -> (nV, nE, nF, nC)
-B_EMPTY, B_LOWDIM, B_TET, B_TET2_FACE, B_TET2_EDGE, B_TET2_VERTEX, B_TET3_RING, B_HEX, B_HEX2, B_PRISM_PYR, B_TRI2, B_TET3_FAN = range(12)
+B_EMPTY, B_LOWDIM, B_TET, B_TET2_FACE, B_TET2_EDGE, B_TET2_VERTEX, B_TET3_RING, B_HEX, B_HEX2, B_PRISM_PYR, B_TRI2, B_TET3_FAN, B_TWOFACE, B_TET_ODD = range(14)
 BASE_COUNTS = {B_EMPTY: (0,0,0,0), B_LOWDIM: (5,5,1,0), B_TET: (4,6,4,1), B_TET2_FACE: (5,9,7,2), B_TET2_EDGE: (6,11,8,2), B_TET2_VERTEX: (7,12,8,2),
-               B_TET3_RING: (5,10,9,3), B_HEX: (8,12,6,1), B_HEX2: (12,20,11,2), B_PRISM_PYR: (7,13,9,2), B_TRI2: (4,5,2,0), B_TET3_FAN: (6,12,10,3)}
+               B_TET3_RING: (5,10,9,3), B_HEX: (8,12,6,1), B_HEX2: (12,20,11,2), B_PRISM_PYR: (7,13,9,2), B_TRI2: (4,5,2,0), B_TET3_FAN: (6,12,10,3), B_TWOFACE: (6,13,11,3), B_TET_ODD: (4,6,4,1)}
 (OP_NONE, OP_DEL_V, OP_DEL_E, OP_DEL_F, OP_DEL_C, OP_ADD_V, OP_ADD_E, OP_ADD_E_DUP, OP_ADD_F, OP_ADD_C, OP_SWAP_V, OP_SWAP_E, OP_SWAP_F, OP_SWAP_C,
- OP_GC, OP_CLEAR, OP_BU_TOGGLE, OP_SET_E, OP_SET_F, OP_SET_C, OP_ADD_NV, OP_SET_MODE, OP_BU_OFF) = range(23)
+ OP_GC, OP_CLEAR, OP_BU_TOGGLE, OP_SET_E, OP_SET_F, OP_SET_C, OP_ADD_NV, OP_SET_MODE, OP_BU_OFF, OP_READD_C) = range(24)
 CASES_PER_QUERY = 8
 
 def op_count(base, op):
     nv, ne, nf, nc = BASE_COUNTS[base]
     return {OP_DEL_V: nv, OP_DEL_E: ne, OP_DEL_F: nf, OP_DEL_C: nc, OP_ADD_V: 1, OP_ADD_NV: 1, OP_GC: 1, OP_CLEAR: 1,
-            OP_ADD_E: nv*nv, OP_ADD_E_DUP: nv*nv, OP_SWAP_V: nv*nv, OP_SWAP_E: ne*ne, OP_SWAP_F: nf*nf, OP_SWAP_C: nc*nc, OP_BU_TOGGLE: 14, OP_SET_MODE: 4, OP_BU_OFF: 8, OP_SET_E: ne*nv*nv, OP_SET_F: nf*2, OP_SET_C: nc*2, OP_ADD_F: nv*nv*nv, OP_NONE: 1}.get(op, 0)
+            OP_ADD_E: nv*nv, OP_ADD_E_DUP: nv*nv, OP_SWAP_V: nv*nv, OP_SWAP_E: ne*ne, OP_SWAP_F: nf*nf, OP_SWAP_C: nc*nc, OP_BU_TOGGLE: 14, OP_SET_MODE: 4, OP_BU_OFF: 8, OP_SET_E: ne*nv*nv, OP_SET_F: nf*2, OP_SET_C: nc*2, OP_ADD_F: nv*nv*nv, OP_NONE: 1, OP_READD_C: 1}.get(op, 0)
 
 def op_shards(bases, modes, ops, per=CASES_PER_QUERY):
     out = []
